@@ -79,6 +79,10 @@ class Profile:
     p_combo_ops: float = 0.15
     p_consecutive_ops: float = 0.35
     p_null_run: float = 0.04
+    max_sigs: int = 5                    # signifiers per note (up to all 35 in the long-token profile)
+    chord_sizes: tuple = (2, 2, 3, 3, 4)
+    long_text: float = 0.0               # probability of a very long free-text cell
+    tiny: bool = False                   # boundary documents: header + terminator (+ at most one line)
     p_divergent_sig: float = 0.5        # inside a split, sibling sub-spines may get different signatures
     max_width: int = 7
     rejoin_before_barline: bool = False
@@ -188,13 +192,14 @@ class _Gen:
             a, b = n.render(rng, p.hostile), n.render(rng, p.hostile)
             return Cell('rest', a, b, n)
         if r < p.p_null + p.p_rest + p.p_chord:
-            ch = N.rand_chord(rng, hostile=p.hostile, allow_acc=p.allow_acc, allow_sigs=p.allow_sigs)
+            ch = N.rand_chord(rng, hostile=p.hostile, allow_acc=p.allow_acc, allow_sigs=p.allow_sigs, sizes=p.chord_sizes,
+                              max_sigs=min(p.max_sigs, 12) if p.max_sigs > 5 else 3)
             self.doc.tags.add('chords')
             a, b = ch.render(rng, p.hostile), ch.render(rng, p.hostile)
             return Cell('chord', self._q(a, ch), self._q(b, ch), ch)
         n = N.rand_note(rng, hostile=p.hostile, allow_grace=p.allow_grace, allow_acc=p.allow_acc,
                         allow_display=p.allow_display, allow_sigs=p.allow_sigs, allow_rational=p.allow_rational,
-                        allow_nodur=p.allow_nodur)
+                        allow_nodur=p.allow_nodur, max_sigs=p.max_sigs)
         if n.dots:
             self.doc.tags.add('dotted')
         if n.grace or n.fixed_pre:
@@ -220,6 +225,9 @@ class _Gen:
         if p.separator_text and rng.random() < p.separator_text:
             self.doc.tags.add('separator_in_text_cell')
             return Cell('text', rng.choice(SEPARATOR_WORDS))
+        if p.long_text and rng.random() < p.long_text:
+            self.doc.tags.add('long_text_cell')
+            return Cell('text', ' '.join(rng.choice(WORDS) for _ in range(rng.randint(40, 120))))
         if rng.random() < p.hostile_text:
             w = rng.choice(HOSTILE_WORDS)
             if w.startswith('"'):
@@ -471,6 +479,17 @@ class _Gen:
             self.interp_line('metersym')
         if rng.random() < p.p_tandem:
             self.interp_line('tandem')
+        if p.tiny:
+            doc.tags.add('tiny_document')
+            k = rng.choice([0, 0, 1, 2])
+            if k == 1:
+                self.data_line()
+            elif k == 2:
+                self.bar_line()
+            self.add(Line('op', [Cell('op', '*-') for _ in self.paths]))
+            self.paths = []
+            doc.infos()
+            return doc
         # measures
         n_meas = rng.randint(*p.measures)
         opening = {'always': True, 'never': False, 'random': rng.random() < 0.6}[p.opening_barline]
@@ -571,6 +590,13 @@ def profile(name: str, **over) -> Profile:
         'splitty': dict(p_split=0.35, p_join=0.35, max_width=8, measures=(1, 4), rows=(2, 6), p_early_term=0.05),
         'texty': dict(types=('**kern', '**text', '**dynam', '**dyn', '**harm', '**mxhm', '**fing'), min_spines=2,
                       hostile_text=0.6),
+        # boundary shapes of realistic data
+        'many_spines': dict(min_spines=5, max_spines=13, measures=(1, 3), rows=(1, 3), p_split=0.05, max_width=16),
+        'many_measures': dict(max_spines=2, measures=(101, 125), rows=(1, 1), p_split=0.01, p_gcomment=0.0, p_fcomment=0.01,
+                              p_tandem=0.01, p_midsig=0.0, bar_numbers=1.0, empty_measures=0.3, p_null_run=0.0, p_blank=0.0),
+        'wide_split': dict(max_spines=2, p_split=0.7, p_join=0.1, max_width=14, measures=(1, 3), rows=(4, 9), p_early_term=0.0),
+        'long_tokens': dict(max_sigs=35, chord_sizes=(5, 6, 8, 9), long_text=0.3, p_chord=0.3, measures=(1, 3)),
+        'tiny': dict(tiny=True, p_sig=0.3, p_pre_gcomment=0.2, p_post_gcomment=0.2, p_tandem=0.0, p_metersym=0.0),
     }[name]
     base = dict(base)
     base.update(over)
